@@ -278,3 +278,33 @@ const (
 )
 
 var chainDefectNames = []string{"valid", "empty", "reversed", "missing_root", "leaf_is_ca", "wrong_purpose", "neighbours_swapped", "duplicate_leaf"}
+
+// TSA chain defects (C15). The first group is rejected by tspclient-go /
+// crypto/x509, the second only by notation-core-go's own chain validation.
+const (
+	TDNone = iota
+	TDLeafExpired
+	TDLeafNotYet
+	TDEKUNonCritical
+	TDEKUExtra
+	TDEKUUnknownExtra
+	TDEKUAbsent
+	TDCANoCertSign
+	TDPathLen
+	TDUntrustedRoot
+	// only notation-core-go's ValidateTimestampingCertChain catches these
+	TDLeafKUExtra
+	TDLeafKUAbsent
+	TDLeafNoDigSig
+	TDLeafIsCA
+	TDLeafRSA1024
+	TDLeafP224
+	TDCANoKU
+	nTSADefects
+)
+
+var tsaDefectNames = []string{"none", "leaf_expired", "leaf_not_yet_valid", "eku_non_critical", "eku_extra_codesigning", "eku_extra_unknown_oid", "eku_absent",
+	"ca_without_certsign", "path_length_too_small", "untrusted_root",
+	"leaf_keyusage_extra_bits", "leaf_keyusage_absent", "leaf_without_digital_signature", "leaf_is_ca", "leaf_rsa1024", "leaf_p224", "ca_without_keyusage_ext"}
+
+func tsaDefectOnlyCore(d int) bool { return d >= TDLeafKUExtra }
